@@ -136,6 +136,7 @@ class AbsInt:
         self.call_log = []
         self.after_call = {}     # fn path suffix -> callable(ai, st, frame, b, bi, t, res)
         self.stmt_hook = None    # callable(ai, st, frame, b, bi, si, stmt, value)
+        self.switch_hook = None  # callable(ai, st, frame, b, bi, discriminant vn)
         self.edges = {}          # (frame, body path) -> {(pred, succ): State} of the last fixpoint
         self.gen = {}
         self.dv = {}
@@ -1401,6 +1402,8 @@ class AbsInt:
             return [('ret', st)]
         if k == 'switch':
             d = self.operand(st, b, frame, t['d'])
+            if self.switch_hook is not None and not self.quiet:
+                self.switch_hook(self, st, frame, b, bi, d)
             outs = []
             vals = [int(x['v']) for x in t['ts']]
             for x in t['ts']:
@@ -1848,7 +1851,7 @@ class AbsInt:
                 self.oblige('index', b, bi, frame, ok1 and ok2,
                             '' if ok1 and ok2 else 'range %s..%s of a slice of length %s: %s' % (
                                 self.show(st, s), self.show(st, e), self.show(st, ln),
-                                'start may exceed end' if not ok1 else 'end may exceed the length'), base)
+                                'start may exceed end' if not ok1 else 'end may exceed the length'), (base, s, e, st.copy()))
                 st.le.add(('le', s, e))
                 st.le.add(('le', e, ln))
                 return ('sub', base, s, e)
